@@ -36,6 +36,7 @@ type job struct {
 	code     int
 	timedOut bool
 	wall     time.Duration
+	resumed  bool
 	wo       *WorkerOut
 }
 
@@ -177,6 +178,7 @@ type orch struct {
 	sitesFile       string
 	t0              time.Time
 	trouble         []string
+	skipped         []uint64
 	notes           []string
 	replayTimeout   time.Duration
 	shrinkLimit     int
@@ -455,6 +457,37 @@ func (o *orch) search(scale float64) int {
 		timeout = 5 * time.Hour
 	}
 	runPool(jobs, o.par, timeout)
+	// a single-client run that exceeds the yield budget is a matter of cost:
+	// skip that one run and continue with the rest of its range
+	if o.prop != "C07" {
+		for round := 0; round < 20; round++ {
+			var more []*job
+			for _, j := range jobs {
+				if j.code != 67 || j.resumed {
+					continue
+				}
+				j.resumed = true
+				errText := ""
+				if b, err := os.ReadFile(j.errf); err == nil {
+					errText = string(b)
+				}
+				n, ok := lastBegin(errText)
+				if !ok {
+					continue
+				}
+				o.skipped = append(o.skipped, n)
+				if n+1 < j.to {
+					nj := mk(j.kind, j.bin, n+1, j.to, "-tuples", filepath.Join(o.dir, fmt.Sprintf("tuples-r%d-%d.jsonl", round, n)), "-tuple-every", fmt.Sprint(c.tupleEvery))
+					more = append(more, nj)
+				}
+			}
+			if len(more) == 0 {
+				break
+			}
+			runPool(more, o.par, timeout)
+			jobs = append(jobs, more...)
+		}
+	}
 	o.jobsDone = jobs
 
 	var finds []found
@@ -498,9 +531,8 @@ func (o *orch) search(scale float64) int {
 			w := genWorkload(o.prop, o.seed, n, o.maxOps)
 			switch {
 			case j.code == 67 && o.prop != "C07":
-				// a single client that does not finish within the yield budget is a
-				// matter of cost (C09), which this technique does not decide
-				o.troublef("run %d of job %s exceeded the yield budget (single client: cost, not decided here)", n, j.name)
+				// skipped and resumed above (cost is not decided here); the partial
+				// statistics of the interrupted process are lost
 			case j.code == 67 && func() bool {
 				// concurrent clients: is it slow even when run one after the other?
 				sw := w.clone()
@@ -1013,7 +1045,8 @@ func (o *orch) writeEvidence(a *agg, c counts, nviol int) {
 			"simulated": "which client goroutine runs next (seeded scheduler), map iteration order in repository code (policy seam), forced GC points; sync/time/math/rand/maps shims only if the repository imports them",
 			"stubbed":   "nothing",
 		},
-		"trouble": o.trouble,
+		"trouble":                        o.trouble,
+		"runs_skipped_over_yield_budget": o.skipped,
 	}
 	ev := map[string]any{
 		"property_id": o.prop,
